@@ -190,9 +190,6 @@ Section BufferRefine.
     intros H. unfold babs. rewrite ring_nth by lia. do 3 f_equal. lia.
   Qed.
 
-  Lemma babs_nth_none b j : 0 <= ln b <= j -> nth_error (babs b) (Z.to_nat j) = None.
-  Proof. intros H. apply nth_error_None. unfold babs. rewrite ring_length. lia. Qed.
-
   Lemma babs_rev_nth b j : 0 <= j < ln b ->
     nth_error (rev (babs b)) (Z.to_nat j) = Some (cell (cont b) ((en b + (ln b - 1 - j)) mod cap b)).
   Proof.
@@ -201,9 +198,6 @@ Section BufferRefine.
     replace (Z.to_nat (ln b) - S (Z.to_nat j))%nat with (Z.to_nat (ln b - 1 - j)) by lia.
     apply babs_nth. lia.
   Qed.
-
-  Lemma babs_rev_nth_none b j : 0 <= ln b <= j -> nth_error (rev (babs b)) (Z.to_nat j) = None.
-  Proof. intros H. apply nth_error_None. rewrite rev_length. unfold babs. rewrite ring_length. lia. Qed.
 
   (* ------------------------------------------------------- slots and cursors *)
   Lemma inv_st_range b : Inv b -> 0 <= st b < cap b.
